@@ -549,7 +549,11 @@ impl<'a> Model<'a> {
                 })
             }
             E::FStr(segs) => {
+                // every segment is evaluated (no statement lets a failing segment stop the
+                // others); if any fails the f-string fails, with whichever of the failures
                 let mut out = String::new();
+                let mut failed: Vec<Class> = vec![];
+                let mut any_failed = false;
                 for s in segs {
                     match s {
                         FSeg::Lit(l) => out.push_str(l),
@@ -557,11 +561,22 @@ impl<'a> Model<'a> {
                             MO::Val(V::Str(s)) => out.push_str(&s),
                             MO::Val(V::Int(i)) => out.push_str(&i.to_string()),
                             MO::Val(_) => return Err(Silent("f-string segment of a type C14 owns")),
-                            f => return Ok(f),
+                            MO::Fail(cs) => {
+                                any_failed = true;
+                                if cs.is_empty() {
+                                    return Err(Silent("f-string segment failing in an unstated way"));
+                                }
+                                failed.extend(cs);
+                            }
+                            MO::AnyOf(_) => return Err(Silent("f-string over an open outcome")),
                         },
                     }
                 }
-                Ok(MO::Val(V::Str(out)))
+                if any_failed {
+                    Ok(MO::Fail(failed))
+                } else {
+                    Ok(MO::Val(V::Str(out)))
+                }
             }
             // C05/C07/C08 say nothing about the wall clock or about which binding a colliding
             // name resolves to (C09 / C12): no rule here, the case is run but not compared
@@ -617,7 +632,9 @@ impl<'a> Model<'a> {
                     None => return Err(Silent("map range whose key order was not learnt")),
                 }
             }
-            // failing or non-list range: a failure, class left open
+            // a range that fails makes the macro fail the same way (an absent range stays
+            // absent); a range that is no list: a failure, class left open
+            MO::Fail(cs) if !cs.is_empty() => return Ok(MO::Fail(cs)),
             _ => return Ok(MO::Fail(vec![])),
         };
         if elems.len() > 32 {
